@@ -84,18 +84,26 @@ def isPrefix : List UInt8 → List UInt8 → Bool
   | _, [] => false
   | a :: as, b :: bs => a == b && isPrefix as bs
 
+def verbTag (v : Verb) (w : Nat) (a : Arg) : String :=
+  s!"verb={verbName v},arg={argClass a},width={widthClass w}"
+
 /-- structural feature of the first piece whose expected rendering is not what the implementation
-wrote at that position -/
-def featureOf : List Piece → List Arg → List UInt8 → String
-  | [], args, out => if (args.map fun _ => errExtraArg).flatten == out then "none" else "surplus-args"
-  | .lit c :: ps, args, out => if isPrefix [c] out then featureOf ps args (out.drop 1) else "literal"
-  | .pct :: ps, args, out => if isPrefix [37] out then featureOf ps args (out.drop 1) else "percent"
+wrote at that position (`last` = the last verb piece that matched as a prefix: blamed when only
+the tail differs) -/
+def featureOf (last : String) : List Piece → List Arg → List UInt8 → String
+  | [], args, out =>
+    if (args.map fun _ => errExtraArg).flatten == out then "none"
+    else if last ≠ "" then s!"after:{last}" else if args.isEmpty then "trailing-bytes" else "surplus-args"
+  | .lit c :: ps, args, out => if isPrefix [c] out then featureOf last ps args (out.drop 1) else
+      if last ≠ "" then s!"after:{last}" else "literal"
+  | .pct :: ps, args, out => if isPrefix [37] out then featureOf last ps args (out.drop 1) else
+      if last ≠ "" then s!"after:{last}" else "percent"
   | .verb _ _ :: ps, [], out =>
-    if isPrefix errMissingArg out then featureOf ps [] (out.drop errMissingArg.length) else "missing-arg"
+    if isPrefix errMissingArg out then featureOf "" ps [] (out.drop errMissingArg.length) else "missing-arg"
   | .verb v w :: ps, a :: args, out =>
     let e := render v w a
-    if isPrefix e out then featureOf ps args (out.drop e.length)
-    else s!"verb={verbName v},arg={argClass a},width={widthClass w}"
+    if isPrefix e out then featureOf (verbTag v w a) ps args (out.drop e.length)
+    else verbTag v w a
 
 structure St where
   stats : Stats := {}
@@ -160,7 +168,7 @@ def processLine (st : St) (line : String) : IO St := do
           match implOut with
           | some enc =>
             if enc ≠ want then
-              let ft := featureOf pieces args (decode enc)
+              let ft := featureOf "" pieces args (decode enc)
               IO.println s!"PROPFAIL case={st.caseId} clause=exact feature={ft} op={opS} impl={obsS} detail=want:{want}"
               st := { st with stats := st.stats.bump "propfail" }
             else if enc.length > 4000 ∨ (enc.splitOn "*").length > 1 then
